@@ -1206,33 +1206,36 @@ func ruleALLINPUTS(w *World, r *Report, pkgs ...string) {
 					}
 					n++
 					key := fmt.Sprintf("%s.create:inputs#%d", pk, n-1)
-					isP := func(v ssa.Value) bool {
-						v = stripAllConv(v)
-						if v == P {
-							return true
+					isP := func(v ssa.Value) bool { return upTo(w, fn, v) == P }
+					A := upTo(w, fn, a)
+					// a helper that returns the list (possibly next to an error): what it returns
+					for d := 0; d < 3; d++ {
+						var call *ssa.Call
+						idx := 0
+						switch x := A.(type) {
+						case *ssa.Extract:
+							call, _ = x.Tuple.(*ssa.Call)
+							idx = x.Index
+						case *ssa.Call:
+							call = x
 						}
-						for i := 0; i < 4; i++ {
-							u := w.up(v)
-							if u == nil || u == v {
-								break
-							}
-							v = stripAllConv(u)
-							if v == P {
-								return true
-							}
-						}
-						return false
-					}
-					A := stripAllConv(a)
-					for i := 0; i < 4 && !isP(A); i++ {
-						u := w.up(A)
-						if u == nil || u == A {
+						if call == nil {
 							break
 						}
-						if pp, ok := A.(*ssa.Parameter); ok && pp.Parent() == fn {
-							break // do not leave create itself
+						g := call.Call.StaticCallee()
+						if g == nil || !w.inModule(g) || len(g.Blocks) == 0 || isBuiltinCall(call, "append") != nil {
+							break
 						}
-						A = stripAllConv(u)
+						var cands []ssa.Value
+						for _, gb := range g.Blocks {
+							if ret, ok := gb.Instrs[len(gb.Instrs)-1].(*ssa.Return); ok && idx < len(ret.Results) && !isNilConst(ret.Results[idx]) {
+								cands = append(cands, ret.Results[idx])
+							}
+						}
+						if len(cands) != 1 {
+							break
+						}
+						A = upTo(w, fn, cands[0])
 					}
 					if isP(A) {
 						r.ok("ALLINPUTS", key, w.ipos(c), "the caller's list is handed on unchanged")
